@@ -45,5 +45,21 @@ Definition run_c13 (x : sx) : sx :=
     | Some s' => sx_opt (fun p => L [sx_str (fst p); sx_str (snd p)]) (read_string s')
     | None => sx_bad
     end
+  (* 11: json.dumps of a flat dict of str -> str *)
+  | L [A 11; l] =>
+    match list_of_sx (fun p => match p with
+                               | L [k; v] => match str_of_sx k, str_of_sx v with
+                                             | Some k', Some v' => Some (k', v') | _, _ => None end
+                               | _ => None end) l with
+    | Some l' => sx_str (enc_flat_obj l')
+    | None => sx_bad
+    end
+  (* 12: raw_decode of a flat object: members in order and the remaining text *)
+  | L [A 12; s] =>
+    match str_of_sx s with
+    | Some s' => sx_opt (fun p => L [sx_list (fun kv => L [sx_str (fst kv); sx_str (snd kv)]) (fst p);
+                                     sx_str (snd p)]) (dec_flat_obj s')
+    | None => sx_bad
+    end
   | _ => sx_bad
   end.
